@@ -359,6 +359,13 @@ def resource_cases(nw=2):
                   [select(1, recv(("res",))), ruse(2, 1), select(3, recv(("int",))), ret(r(2))],
                   [ropen(2), send(1, r(2)), ruse(4, 2), ret(r(4))]], nw=nw, io=True, maxtick=3)
     out.append(meta(s, False, False, ["C14", "C15"]))
+    # the handle is sent to a process that has already terminated and been cleaned up behind: it is never closed
+    # (pinned finding res_delivered_to_finished; the model's ClosedAtExit shows the same counter-example)
+    s = scenario("res_delivered_to_finished_w%d" % nw,
+                 [[spawn(1, 2), spawn(2, 3, r(1)), select(3, aw(1)), select(4, aw(2)), ret(OKE)],
+                  [select(1, recv(("res",)), tmo(1)), ret(OKE)],
+                  [select(2, tmo(2)), ropen(3), send(1, r(3)), ret(OKE)]], nw=nw, io=True, maxtick=3)
+    out.append(meta(s, False, True, ["C14"]))
     # the handle is captured by a spawned process (ownership moves at the spawn), nested in a tuple
     s = scenario("res_captured_w%d" % nw,
                  [[spawn(1, 2), select(2, aw(1)), ret(r(2))],
@@ -691,6 +698,65 @@ def random_scenario(seed, nw=2):
     maxtick = 3 if any(s_["k"] == "timeout" for ops in scripts for op in ops if op["op"] == "select" for s_ in op["srcs"]) else 0
     sc = scenario("rand_%d_w%d" % (seed, nw), scripts, nw=nw, maxtick=maxtick, maxpid=n + 1 + len(leaves))
     return meta(sc, False, False, ["C04", "C05", "C06", "C15"], large=True, random=True)
+
+
+def random_resource_scenario(seed, nw=2):
+    """A random resource system (C14): 2-3 processes spawned by the entry process (each captures the pids of the
+    earlier ones), each a short script over open / use / close / send a handle to an earlier process / receive a
+    handle; a process may use a handle it has given away (refused, it fails), forward a received handle, leave
+    one in a mailbox, end normally or in an error.  The entry process awaits EVERY process (an un-awaited owner is
+    the pinned finding res_owner_unawaited).  Nothing is promised about termination: the per-step and
+    state-based ownership rules judge these runs."""
+    import random
+    rnd = random.Random(seed * 31 + 7)
+    n = rnd.randint(2, 3)
+    receives = [rnd.random() < 0.6 for _ in range(n)]          # does child i receive handles?
+    plans = []
+    for i in range(n):
+        ops, nreg = [], i                       # regs 1..i hold earlier pids
+        held, given = [], []                    # handle registers it owns / has given away
+        for _ in range(rnd.randint(2, 5)):
+            if nreg >= 7:
+                break
+            x = rnd.random()
+            targets = [j for j in range(i) if receives[j]]
+            if x < 0.3:
+                nreg += 1
+                ops.append(ropen(nreg))
+                held.append(nreg)
+            elif x < 0.5 and held:
+                nreg += 1
+                ops.append(ruse(nreg, rnd.choice(held)))
+            elif x < 0.65 and held and targets:
+                h = held.pop(rnd.randrange(len(held)))
+                ops.append(send(rnd.choice(targets) + 1, r(h)))
+                given.append(h)
+            elif x < 0.75 and held:
+                h = held.pop(rnd.randrange(len(held)))
+                ops.append(rclose(h))
+            elif x < 0.9 and receives[i]:
+                nreg += 1
+                srcs = [recv(("res",))] + ([tmo(rnd.choice([1, 2]))] if rnd.random() < 0.5 else [])
+                ops.append(select(nreg, *srcs))
+                if len(srcs) == 1:
+                    held.append(nreg)           # (after a timeout the register may hold nil: not used as a handle)
+            elif given and rnd.random() < 0.5:
+                nreg += 1
+                ops.append(ruse(nreg, rnd.choice(given)))      # no longer the owner: refused, the process fails
+        ops.append(fail() if rnd.random() < 0.1 else ret(OKE))
+        plans.append(ops)
+    main = [spawn(i + 1, i + 2, *[r(j + 1) for j in range(i)]) for i in range(n)]
+    reg = n
+    for j in rnd.sample(range(n), n):
+        reg += 1
+        main.append(select(reg, aw(j + 1)))
+    main.append(ret(OKE))
+    mt = 2 if any(s_["k"] == "timeout" for ops in plans for op in ops if op["op"] == "select" for s_ in op["srcs"]) else 0
+    sc = scenario("rres_%d_w%d" % (seed, nw), [main] + plans, nw=nw, maxtick=mt, maxpid=n + 1, io=True)
+    if seed % 3 == 0:
+        sc["deferred_io"] = True
+        sc["iomodes"] = ["later"]
+    return meta(sc, False, False, ["C14"], large=True, random=True)
 
 
 def fail_multi_worker_select(nw=2):
